@@ -762,15 +762,30 @@ func (x *c14Exec) subOp(slot int, op string, names []string, churn bool) {
 	if op == "sub" || op == "psub" {
 		// SUBSCRIBE a b ... is acknowledged once per name
 		want := len(names)
+		wrong := ""
 		err := cr.lg.waitFor(from, func(evs []c14Event) bool {
 			n := 0
 			for _, e := range evs {
 				if e.K == op {
 					n++
+				} else if (e.K == "sub" || e.K == "psub") && e.K != op {
+					// the server acknowledged the other kind of subscription for a name we sent
+					for _, nm := range names {
+						if e.Name == nm {
+							wrong = e.K
+							return true
+						}
+					}
 				}
 			}
 			return n >= want
 		})
+		if wrong != "" {
+			x.violate(fmt.Sprintf("c14|wrong-acknowledgement|sent=%s|acknowledged-as=%s", c14Verb[op], strings.ToLower(c14Verb[wrong])),
+				"connection c%d (member %d) sent %s %v as a later command on a subscribed connection and the member acknowledged it as %s", slot, cr.Member, c14Verb[op], names, strings.ToLower(c14Verb[wrong]))
+			x.fail("wrong kind of acknowledgement")
+			return
+		}
 		if err != nil {
 			x.fail("waiting for %d %s acknowledgements on connection c%d (member %d): %v", want, op, slot, cr.Member, err)
 			return
